@@ -20,7 +20,7 @@ ID = "C16"
 TECHNIQUE = "exhaustive schedule exploration of timer orders and caller-cancellation instants on the real timeout wrapper (virtual time)"
 RULE = (
     "grid duration{1,2,3} x outcome{value,Exception,falsy Exception,own TimeoutError,own InvalidStateError,BaseException,self-cancel,ignores first "
-    "cancellation then runs 1 or 3 more} x timeout 2 x caller cancel at {never, before first "
+    "cancellation then runs 1 or 3 more, blocks the loop for its duration then yields once} x timeout 2 x caller cancel at {never, before first "
     "step, 1, 2, 3, 5, or at any quiescent point / between any two loop iterations}; all orders of timers with equal deadline, with and without landing in "
     "one loop iteration; wrapped function that is itself a wrapper object (timeout(10), throttle); "
     "two overlapping calls through one wrapped function; one wrapper used under two event loops in a row; a second timeout derived from a timeout wrapper, both used afterwards; non-trivial = not the plain 'value before deadline, no cancel' case"
@@ -52,6 +52,9 @@ class FEmpty(Exception):
 
 
 KINDS = ["value", "exc", "base", "selfcancel", "ignore1", "ignore3", "falsy_exc", "own_timeout", "own_invalid"]
+# "block_value" / "block_exc": the function BLOCKS the loop for its whole duration (the clock moves
+# inside one step), then yields once and ends: if the deadline passed meanwhile, the call times out
+# (observable only when the loop gets control back, i.e. at the function's own end time)
 CANCELS = [None, "pre", 1, 2, 3, 5]
 
 
@@ -83,6 +86,10 @@ def programs(tier: str):
     for d in (1, 2, 3):
         for kind in ("value", "exc", "ignore1", "selfcancel"):
             yield {"d": d, "kind": kind, "tc": None, "batch": 1, "wcancel": True}
+    # a function that blocks the loop for its whole duration, then yields once and ends
+    for d in (1, 2, 3):
+        for kind in ("block_value", "block_exc"):
+            yield {"d": d, "kind": kind, "tc": None, "batch": 1}
     # deadlines other than 2: zero (int and float - the deadline has passed as soon as the function
     # suspends), a fraction, a long one
     for tv, as_int in ((0.0, False), (0.0, True), (0.5, False), (8.0, False)):
@@ -247,7 +254,13 @@ def execute(program, ch: Chooser) -> Result:  # noqa: C901, PLR0912, PLR0915
             assert (a, k) == ("arg", "kw")
             try:
                 try:
-                    await asyncio.sleep(d)
+                    if kind.startswith("block_"):
+                        from hv import vtime as _vt
+
+                        _vt.advance(float(d))  # a blocking step: time passes, the loop does not run
+                        await asyncio.sleep(0)
+                    else:
+                        await asyncio.sleep(d)
                 except asyncio.CancelledError:
                     st["saw_cancel"] = True
                     if kind.startswith("ignore"):
@@ -256,7 +269,7 @@ def execute(program, ch: Chooser) -> Result:  # noqa: C901, PLR0912, PLR0915
                     raise
                 if program.get("cancel_at_return"):
                     w.loop.call_soon(task.cancel)  # runs before the caller is resumed
-                if kind in ("exc", "falsy_exc", "own_timeout", "own_invalid"):
+                if kind in ("exc", "falsy_exc", "own_timeout", "own_invalid", "block_exc"):
                     raise err
                 if kind == "base":
                     raise base
@@ -318,6 +331,8 @@ def execute(program, ch: Chooser) -> Result:  # noqa: C901, PLR0912, PLR0915
             "base": ("raised", "FBase", True),
             "own_timeout": ("raised", "TimeoutError", True),
             "own_invalid": ("raised", "InvalidStateError", True),
+            "block_value": ("value", "v"),
+            "block_exc": ("raised", "FErr", True),
             "selfcancel": ("cancelled",),
             "ignore1": ("value", "v"),
             "ignore3": ("value", "v"),
@@ -343,7 +358,8 @@ def execute(program, ch: Chooser) -> Result:  # noqa: C901, PLR0912, PLR0915
                 if what == "own":
                     allowed.append((own, t))
                 elif what == "timeout":
-                    allowed.append((("raised", "TimeoutError", False), t))
+                    # (a blocking function: the expiry is noticed when the loop runs again)
+                    allowed.append((("raised", "TimeoutError", False), max(t, float(d)) if kind.startswith("block_") else t))
                 else:
                     allowed.append((("cancelled",), max(t, 0.0)))
         obs = {"result": res.get("out"), "t": res.get("t"), "fn": dict(st), "trace": w.trace}
